@@ -56,8 +56,9 @@ Theorem gen_pack inbuf incount t outbuf outsize pos comm r :
   else let '(d, s, n) := pack_copy pos size in
        (1, incount, t, comm, 1, outbuf + d, inbuf + s, n, pack_advance pos size, SUCCESS).
 Proof.
-  cbv zeta. unfold stub_pack, pack_refuses, pack_copy, pack_advance.
-  destruct (outsize <? s32 (pos + pack_bytes incount t)); [reflexivity|]. rewrite Z.add_0_r. reflexivity.
+  cbv zeta. unfold stub_pack, pack_copy, pack_advance.
+  change (s32 (outsize - pos) <? pack_bytes incount t) with (pack_refuses pos (pack_bytes incount t) outsize).
+  destruct (pack_refuses pos (pack_bytes incount t) outsize); [reflexivity|]. rewrite Z.add_0_r. reflexivity.
 Qed.
 
 Theorem gen_unpack inbuf insize pos outbuf outcount t comm r :
@@ -67,8 +68,9 @@ Theorem gen_unpack inbuf insize pos outbuf outcount t comm r :
   else let '(d, s, n) := unpack_copy pos size in
        (1, outcount, t, comm, 1, outbuf + d, inbuf + s, n, pack_advance pos size, SUCCESS).
 Proof.
-  cbv zeta. unfold stub_unpack, pack_refuses, unpack_copy, pack_advance.
-  destruct (insize <? s32 (pos + pack_bytes outcount t)); [reflexivity|]. rewrite Z.add_0_r. reflexivity.
+  cbv zeta. unfold stub_unpack, unpack_copy, pack_advance.
+  change (s32 (insize - pos) <? pack_bytes outcount t) with (pack_refuses pos (pack_bytes outcount t) insize).
+  destruct (pack_refuses pos (pack_bytes outcount t) insize); [reflexivity|]. rewrite Z.add_0_r. reflexivity.
 Qed.
 
 (* the model's Pack / Unpack written over the generated bodies: the model IS the generated control flow with the
